@@ -183,6 +183,35 @@ impl Face {
     pub fn contains(&self, x: &[Q]) -> bool {
         self.cons.iter().all(|(f, s)| f.eval(x).sign() == *s)
     }
+    /// full-dimensional face with a point whose slack is >= ms * |a|_1 in every constraint?
+    pub fn has_slack(&self, ms: &Q) -> bool {
+        use crate::lp::{maximize, LpResult};
+        let n = self.w.len();
+        let mut rows = vec![];
+        for (f, s) in &self.cons {
+            if *s == 0 {
+                return false;
+            }
+            let sq = Q::int(*s as i64);
+            let mut norm = Q::ZERO;
+            for v in &f.a {
+                norm = norm + v.abs();
+            }
+            let mut a: Vec<Q> = f.a.iter().map(|v| -(v * &sq)).collect();
+            a.push(norm);
+            rows.push(Row::le(a, &f.c * &sq));
+        }
+        if rows.is_empty() {
+            return true;
+        }
+        let mut c = vec![Q::ZERO; n + 1];
+        c[n] = Q::ONE;
+        match maximize(n + 1, &rows, &c) {
+            LpResult::Unbounded => true,
+            LpResult::Optimal(_, t) => t >= *ms,
+            LpResult::Infeasible => false,
+        }
+    }
     pub fn to_json(&self) -> serde_json::Value {
         serde_json::json!({
             "witness": crate::q::fmt_vec(&self.w),
@@ -248,6 +277,9 @@ pub struct Config {
     pub coef_tol: Option<Q>,
     /// tolerant mode: judge only full-dimensional faces
     pub only_fulldim: bool,
+    /// tolerant mode: judge only faces containing a point with this much slack (relative to
+    /// the 1-norm of each constraint) in every constraint
+    pub min_slack: Option<Q>,
     /// stop after this many mismatches
     pub max_mismatches: usize,
     /// safety cap on faces (reported, never silent)
@@ -256,7 +288,7 @@ pub struct Config {
 
 impl Default for Config {
     fn default() -> Self {
-        Config { coef_tol: None, only_fulldim: false, max_mismatches: 4, max_faces: 5_000_000 }
+        Config { coef_tol: None, only_fulldim: false, min_slack: None, max_mismatches: 4, max_faces: 5_000_000 }
     }
 }
 
@@ -383,6 +415,12 @@ pub fn explore(
         if cfg.only_fulldim && lowdim {
             stats.skipped_tolerant += 1;
             continue;
+        }
+        if let Some(ms) = &cfg.min_slack {
+            if !face.has_slack(ms) {
+                stats.skipped_tolerant += 1;
+                continue;
+            }
         }
         let mm = compare(&face, &a, &b, cfg);
         if let Some(m) = mm {
